@@ -159,6 +159,8 @@ var letsOK = []string{"let x = 5", "let lim = 2", "let s = 'a;b'", "let x = x + 
 var letsBad = []string{"let q = nosuch", "let = 5", "let w = (", "let a.b = 1", "let v = `x`", "let u = T.a", "let 5 = x"}
 var queries = []string{"T | where a == x | take lim", "T | count", "T | where s == 'a;b' // c;d\n| take 1", "T\n| project a, b\n| sort by a", "U | join (T) on k | where x > 1", "T | extend z = y * 2",
 	"T | where a == -y", "T | top lim by a", "T | where t and a in (x, y)", "T | summarize n = count() by k | where n > x", "T | where b == \"q;\\\"\"", "`T;1` | take 1", "T | extend a+x", "T | where c == s", "T | project s, z", "T | where a == x | take lim",
+	// strings and names that contain the comment marker, alone and beside a quote of the other kind
+	"T | where u == 'http://h'", "T | where u == \"it's\" and v == 'http://h'", "`a//b` | count", "T | where u == \"a\\\"//b\" | take 1", "T | where u == '//' // c\n| count", "T | extend w = strcat('x//', \"'//\")",
 	// tables whose names begin like the let keyword
 	"let_events | count", "let2 | take 1", "letters | where a == x", "Let | count", "`let` | take lim", "let_ | project a", "lets\n| count",
 	// quoted names and strings that end in a backslash right before the semicolon
@@ -168,7 +170,10 @@ var invalid = []string{"T | where (", "T | bogus", "!", "T | take 1.5", "T | whe
 	// a byte order mark or another unrecognisable character at the start of a statement or of one of its lines
 	"\ufeffT | count", "T\n\ufeff| count", "\ufefflet bom = 1", "T | where a == 1\n\ufeff", "\u00a0T | count", "T\n\x00| take 1"}
 var seps = []string{"; ", ";\n", ";\n\n// a comment; with a semicolon\n", " ;\n", ";\r\n", ";\n   \n", "; // trailing comment\n", ";\t",
-	" // comment before the semicolon\n;\n", "\n;\n", "\n\n  ;  ", " //c\n\n;", "\t// x ; y\n ;\n"}
+	" // comment before the semicolon\n;\n", "\n;\n", "\n\n  ;  ", " //c\n\n;", "\t// x ; y\n ;\n",
+	";\n" + strings.Repeat("// sixty bytes of commentary to pad the line out to its length\n", 17),
+	";\n" + strings.Repeat("// a comment line; with a semicolon in it\n", 30) + "\n",
+	"\n" + strings.Repeat("// before the semicolon\n", 50) + ";\n"}
 
 // chainScript: lets that depend on earlier lets, then queries that use the
 // last link, with unrelated statements interleaved.
@@ -303,6 +308,33 @@ func oneLineScript(rng *rand.Rand) *Script {
 	return s
 }
 
+// markerScript: a statement whose string or quoted name contains the comment
+// marker is terminated on its own line, and nothing after it has a semicolon:
+// the last statement is left unterminated (or the script ends there).
+func markerScript(rng *rand.Rand) *Script {
+	s := &Script{}
+	add := func(st, sep string) {
+		s.Stmts = append(s.Stmts, st)
+		s.Seps = append(s.Seps, sep)
+	}
+	marked := []string{"T | where u == 'http://h'", "T | where u == \"it's\" and v == 'http://h'", "`a//b` | count", "T | where u == \"a\\\"//b\" | take 1", "T | extend w = strcat('x//', \"'//\")",
+		"let u = 'http://h'", "let u = \"it's //\"", "T | where a == 1 and `c//d` == \"'\" and e == 'f//g'"}
+	for k := rng.Intn(3); k > 0; k-- {
+		add(queries[rng.Intn(len(queries))], seps[rng.Intn(len(seps))])
+	}
+	add(marked[rng.Intn(len(marked))], []string{"; ", ";", ";\n", " ;\n", ";\t\n"}[rng.Intn(5)])
+	switch rng.Intn(4) {
+	case 0: // nothing more
+	case 1:
+		add("T | where c == u", []string{"", "\n"}[rng.Intn(2)])
+	case 2:
+		add("U\n| count", "\n")
+	default:
+		add(marked[rng.Intn(5)], "")
+	}
+	return s
+}
+
 // longScript: hundreds of statements, most of them spread over several lines,
 // several times the size of any line or read buffer.
 func longScript(rng *rand.Rand) *Script {
@@ -351,8 +383,11 @@ func genScript(rng *rand.Rand) *Script {
 		if rng.Intn(4) == 0 {
 			return longScript(rng)
 		}
-		if rng.Intn(2) == 0 {
+		switch rng.Intn(3) {
+		case 0:
 			return oneLineScript(rng)
+		case 1:
+			return markerScript(rng)
 		}
 		return stringScript(rng)
 	}
